@@ -6,7 +6,7 @@ Oracle: independent scalar reference model (lib/refmodel.py) vs
 """
 from hypothesis import strategies as st
 
-from lib import cas, gen_nets, refmodel
+from lib import cas, gen_nets, layout, refmodel
 from lib import spec as S
 from lib.harness import crashed, guarded
 from lib.sut import np
@@ -99,12 +99,13 @@ def check_case(case, ctx):
         return
     if not ok[0]:
         raise AssertionError(f"generator produced an invalid network: {ok[1]}")
-    F = None
+    F = lay = None
     if case.get("compile"):
         ctx.label("engine:" + case["compile"])
         r = guarded(ctx, "compile", cas.compile_net, sp, case["compile"], 0)
         if not crashed(r):
             F = r[0]
+            lay = layout.Layout(sp, layout.element_order(r[1], r[2]))  # positional: argument names are C04's business
     structural = bool(feats & {"merge", "bifurcation", "interior-ramp", "cycle"})
     for state in case["states"]:
         ref, qo, labels = refmodel.ref_step(sp, state)
@@ -124,12 +125,12 @@ def check_case(case, ctx):
                     f"NumPy engine: {var}+ of {i}[{k}] = {g!r}, reference {r!r} (scale {sc!r})",
                 )
         if F is not None:
-            r = guarded(ctx, "call", cas.eval_level0, F, sp, state)
+            def call():
+                res = F(*lay.args(0, state))
+                return lay.parse(0, list(res) if isinstance(res, (list, tuple)) else [res])[0]
+            r = guarded(ctx, "call", call)
             if not crashed(r):
-                nxt, raw, unknown, missing = r
-                missing = {m for m in missing if F.size_in(m)[0] > 0}
-                if missing or unknown:
-                    ctx.fail(f"{case['compile']}:arguments", f"function arguments not matching element variables: missing={sorted(missing)} unknown={sorted(unknown)}")
+                nxt = r
                 for (i, var, k, g, rr, sc) in refmodel.compare(nxt, refs):
                     ctx.fail(
                         signature(sp, "casadi", i, var, k),
